@@ -6,7 +6,9 @@
      later operations acting after earlier ones; the phase factor of a PS entry is the Phaseshifter block
  (b) the weight vector is written by get_weights_from_decomposition and read by get_decomposition_from_weights
      with the same field order and stride
-Givens nulling, Takagi / Williamson / Euler on degenerate inputs and the graph embedding are numerical: not decided.
+ (c) each Givens step of the Clements sweep nulls one element of the addressed pair for the angles `_get_angles`
+     returns: symbolically for every non-zero pivot, and with the constants of the degenerate arm for a zero pivot
+Takagi / Williamson / Euler on degenerate inputs and the graph embedding are numerical: not decided.
 """
 
 from __future__ import annotations
@@ -40,6 +42,7 @@ def run(ctx: Context) -> None:
     )
     ctx.rule("C15a", "embedded BS block == product of emitted gate blocks for all (theta, phi); same traversal order; PS factor == Phaseshifter block")
     ctx.rule("C15b", "weight vector layout: writer and reader agree on field order and stride")
+    ctx.rule("C15c", "each Givens step of the Clements sweep nulls one matrix element for the angles _get_angles returns: for every non-zero pivot (general arm, proved symbolically) and for a vanishing pivot (the constants of the degenerate arm null the same element)")
     th, ph = sp.Symbol("theta", real=True), sp.Symbol("phi", real=True)
 
     # ---- the embedded block ------------------------------------------------------------------------------------
@@ -171,6 +174,8 @@ def run(ctx: Context) -> None:
                       f"{order_inv} with left-multiplication flags {left_mult}, phases-after-beamsplitters={phase_after}, reversed={rev}: "
                       f"the two consumers compose the operations in different orders", "interferometer = M @ interferometer")
 
+    clause_c(ctx, m, block, th, ph)
+
     # ---------------- (b) weight layout ----------------------------------------------------------------------------------------
     w = m.functions.get("get_weights_from_decomposition")
     r = m.functions.get("get_decomposition_from_weights")
@@ -259,3 +264,152 @@ def _reader_layout(fn: FuncInfo) -> List[Tuple[str, List[Tuple[int, str]], int]]
                 off += s.value.value
         out.append((coll, sorted(fields), off))
     return out
+
+
+# ================================================================================================ (c)
+
+
+def _angles_arms(ga: FuncInfo):
+    """(test-variable, degenerate constants (theta0, phi0) as sympy, general (theta, phi) as functions of r)."""
+    params = ga.params()
+    elim_p, other_p = params[0], params[1]
+    degenerate = None
+    general = None
+    rho, fphi = sp.Symbol("rho", positive=True), sp.Symbol("varphi", real=True)
+    for st in ga.node.body:
+        if isinstance(st, ast.If) and isinstance(st.test, ast.Call) and (dotted(st.test.func) or "").split(".")[-1] == "isclose" \
+                and norm(st.test.args[0]) == elim_p and len(st.body) == 1 and isinstance(st.body[0], ast.Return) \
+                and isinstance(st.body[0].value, ast.Tuple) and len(st.body[0].value.elts) == 2:
+            ev = SymEval(ga, {}, env={"np": "<np>"})
+            degenerate = tuple(sp.sympify(ev.ev(x)) for x in st.body[0].value.elts)
+    # general arm: straight-line assignments after the test, r = other / elim  with  other = rho * exp(i varphi) * elim
+    a = sp.Symbol("a", complex=True, nonzero=True)
+    env = {"np": "<np>", elim_p: a, other_p: rho * sp.exp(sp.I * fphi) * a}
+    ev = SymEval(ga, {}, env=env)
+    for st in ga.node.body:
+        if isinstance(st, ast.Assign) and isinstance(st.value, ast.Attribute) and st.value.attr == "np":
+            continue
+        if isinstance(st, ast.Assign) and len(st.targets) == 1 and isinstance(st.targets[0], ast.Name):
+            v = st.value
+            if isinstance(v, ast.Call) and (dotted(v.func) or "").split(".")[-1] == "angle" and len(v.args) == 1:
+                inner = sp.simplify(ev.ev(v.args[0]))
+                # angle(rho * exp(i varphi)) = varphi for rho > 0 (principal value; varphi ranges over (-pi, pi])
+                ratio = sp.simplify(inner / sp.exp(sp.I * fphi))
+                if ratio.is_positive:
+                    ev.env[st.targets[0].id] = fphi
+                elif sp.simplify(inner * sp.exp(sp.I * fphi)).is_positive:
+                    ev.env[st.targets[0].id] = -fphi
+                else:
+                    raise AnalysisError(f"C15c: cannot read the argument of np.angle in _get_angles: {inner} (undecided)")
+                continue
+            ev.env[st.targets[0].id] = sp.simplify(ev.ev(v))
+        elif isinstance(st, ast.Return) and isinstance(st.value, ast.Tuple) and len(st.value.elts) == 2:
+            general = tuple(sp.simplify(ev.ev(x)) for x in st.value.elts)
+    if degenerate is None or general is None:
+        raise AnalysisError("C15c: _get_angles no longer has the shape `if isclose(pivot, 0): return c1, c2 ... return theta, phi` (undecided)")
+    return degenerate, general, rho, fphi, a
+
+
+def _givens_sites(m, ga_name: str):
+    """For each sweep function: (function, position of the pivot in the 2-vector, position of the other element, their signs,
+    'left' (matrix @ U, elements taken from a column) or 'right' (U @ conj(matrix).T, elements taken from a row))."""
+    out = []
+    for fn in m.functions.values():
+        calls = [c for c in ast.walk(fn.node) if isinstance(c, ast.Call) and isinstance(c.func, ast.Name) and c.func.id == ga_name]
+        if not calls:
+            continue
+        call = calls[0]
+        loop = next((l for l in ast.walk(fn.node) if isinstance(l, ast.For) and any(x is call for x in ast.walk(l))), None)
+        if loop is None or len(call.args) < 2:
+            raise AnalysisError(f"C15c: call of {ga_name} in {fn.name} is not inside the sweep loop (undecided)")
+        binds = {}
+        for st in loop.body:
+            if isinstance(st, ast.Assign) and len(st.targets) == 1 and isinstance(st.targets[0], ast.Name):
+                binds[st.targets[0].id] = st.value
+
+        def element(arg):
+            if not isinstance(arg, ast.Name) or arg.id not in binds:
+                raise AnalysisError(f"C15c: argument `{norm(arg)}` of {ga_name} in {fn.name} is not a local element (undecided)")
+            v = binds[arg.id]
+            sign = 1
+            if isinstance(v, ast.UnaryOp) and isinstance(v.op, ast.USub):
+                sign, v = -1, v.operand
+            if not (isinstance(v, ast.Subscript) and isinstance(v.slice, ast.Tuple) and len(v.slice.elts) == 2):
+                raise AnalysisError(f"C15c: `{norm(v)}` in {fn.name} is not a matrix element (undecided)")
+            row, col = (norm(x) for x in v.slice.elts)
+            for axis, txt in (("row", row), ("col", col)):
+                if txt in ("modes[0]", "modes[1]"):
+                    return sign, int(txt[-2]), axis
+            raise AnalysisError(f"C15c: `{norm(v)}` in {fn.name} is not indexed by modes[0]/modes[1] (undecided)")
+
+        s_e, p_e, ax_e = element(call.args[0])
+        s_o, p_o, ax_o = element(call.args[1])
+        if ax_e != ax_o or p_e == p_o:
+            raise AnalysisError(f"C15c: pivot and partner in {fn.name} are not the two elements of one row/column (undecided)")
+        side = None
+        for st in loop.body:
+            if isinstance(st, ast.Assign) and isinstance(st.value, ast.BinOp) and isinstance(st.value.op, ast.MatMult) and norm(st.targets[0]) == "U":
+                l, r = st.value.left, st.value.right
+                if norm(r) == "U":
+                    side = ("left", l)
+                elif norm(l) == "U":
+                    side = ("right", r)
+        if side is None:
+            raise AnalysisError(f"C15c: no `U = M @ U` / `U = U @ M` update in {fn.name} (undecided)")
+        # how the applied matrix is derived from the embedded block: plain, or conj(...).T
+        mexpr = binds.get(norm(side[1]), side[1])
+        txt = norm(mexpr)
+        dag = ("conj" in txt) and (txt.endswith(".T") or "transpose" in txt)
+        if not dag and "_get_embedded_beamsplitter_matrix" not in txt:
+            raise AnalysisError(f"C15c: the matrix applied in {fn.name} is `{txt[:50]}`, not the embedded beamsplitter (or its adjoint) (undecided)")
+        if (side[0] == "left") != (ax_e == "row"):
+            raise AnalysisError(f"C15c: {fn.name} multiplies from the {side[0]} but takes the two elements from one {ax_e} (undecided)")
+        out.append((fn, call, (s_e, p_e), (s_o, p_o), side[0], dag))
+    return out
+
+
+def clause_c(ctx: Context, m, block: sp.Matrix, th, ph) -> None:
+    ga = m.functions.get("_get_angles")
+    if ga is None:
+        raise AnalysisError("anchor vanished: _get_angles")
+    (th0, ph0), (thg, phg), rho, fphi, a = _angles_arms(ga)
+    sites = _givens_sites(m, ga.name)
+    ctx.require_floor("Givens sweep functions", len(sites), 2)
+    b = sp.Symbol("b", complex=True, nonzero=True)
+    for fn, call, (s_e, p_e), (s_o, p_o), side, dag in sites:
+        M = block
+        if dag:
+            M = M.applyfunc(sp.conjugate).T
+        def apply(vec, theta, phi):
+            Ms = M.subs({th: theta, ph: phi}, simultaneous=True)
+            v = sp.Matrix(vec)
+            return (Ms * v) if side == "left" else (v.T * Ms).T
+        # general arm: U-elements are sign * variable; other = rho e^{i varphi} * pivot
+        vec = [None, None]
+        vec[p_e] = s_e * a
+        vec[p_o] = s_o * rho * sp.exp(sp.I * fphi) * a
+        out = apply(vec, thg, phg)
+        zero = [k for k in (0, 1) if is_zero(sp.simplify(out[k] / a))]
+        key = f"{fn.qualname}|givens|general-arm-nulls-one-element"
+        ok = len(zero) == 1
+        ctx.obligation("C15c", key, ok, f"{ctx.relpath(m.path)}:{call.lineno}", nulled=zero, angles=str((thg, phg)))
+        if not ok:
+            ctx.violation("C15c", key, m.path, call.lineno,
+                          f"with the angles {ga.name} returns for a non-zero pivot, {fn.name} nulls {'no' if not zero else 'both'} element(s) of the "
+                          f"addressed pair: result {[sp.simplify(x) for x in out]}; the sweep does not triangularise the unitary", norm(call)[:80])
+            continue
+        k = zero[0]
+        # degenerate arm: pivot = 0, partner arbitrary
+        vec0 = [None, None]
+        vec0[p_e] = sp.Integer(0)
+        vec0[p_o] = s_o * b
+        out0 = apply(vec0, th0, ph0)
+        ok0 = is_zero(sp.simplify(out0[k]))
+        key0 = f"{fn.qualname}|givens|degenerate-arm-nulls-the-same-element"
+        ctx.obligation("C15c", key0, ok0, f"{ctx.relpath(m.path)}:{ga.line}", constants=str((th0, ph0)))
+        if not ok0:
+            ctx.violation("C15c", key0, m.path, ga.line,
+                          f"for a vanishing pivot {ga.name} returns (theta, phi) = ({th0}, {ph0}), which leaves {sp.simplify(out0[k])} in the element that "
+                          f"the step nulls for every non-zero pivot (there the angles tend to theta = pi/2): unitaries with a zero in the pivot "
+                          f"position (permutations, block-diagonal matrices) are not triangularised and the decomposition does not reproduce them",
+                          f"return {th0}, {ph0}")
